@@ -18,9 +18,10 @@ LEVEL_NOTE = (
 )
 
 
-def searcher(pats, alpha, inferral, symmetry):
-    pack = make_pack("", inferral, symmetry)
-    s = CombinatorialSpecificationSearcher(PW("", pats, alpha, False, ()), pack)
+def searcher(pats, alpha, inferral, symmetry, prefix="", rich=None):
+    """rich: None | "rot" (relabelling strategies) | "two" (two competing decompositions per class) | "factory" (expansion through a factory)"""
+    pack = make_pack("", inferral, symmetry, rot=(rich if rich in ("rot", "two") else False), factory=("plain" if rich == "factory" else None))
+    s = CombinatorialSpecificationSearcher(PW(prefix, pats, alpha, False, ()), pack)
     specrun.quiet()
     return s
 
@@ -32,7 +33,7 @@ def worker(args):
     signal.signal(signal.SIGALRM, speccheck._alarm)
     signal.alarm(150)
     rnd = random.Random(seed)
-    out = {"seed": seed, "problems": [], "pairs": 0, "found": 0, "lines": [], "nontrivial_eq": 0}
+    out = {"seed": seed, "problems": [], "pairs": 0, "found": 0, "lines": [], "nontrivial_eq": 0, "isolines": []}
     try:
         specrun.quiet()
         for _ in range(count):
@@ -60,10 +61,19 @@ def worker(args):
                 red2 = True
             inferral = rnd.random() < 0.7
             symmetry = rnd.random() < 0.4 and len(alpha) == 2
+            # start classes with prefixes: the same shape with atoms of different sizes must not be matched
+            pre1 = pre2 = ""
+            if rnd.random() < 0.3:
+                pre1 = "".join(rnd.choice(alpha) for _ in range(rnd.randint(0, 2)))
+                pre2 = pre1 + rnd.choice(alpha) if rnd.random() < 0.7 else pre1
+                if rnd.random() < 0.6:
+                    p2 = list(p1)
+            rich = rnd.choice([None, None, "two", "two", "rot", "factory"])
             for F in (ParallelSpecFinder, EqPathParallelSpecFinder):
-                inp = {"patterns1": p1, "patterns2": p2, "alphabet": alpha, "inferral": inferral, "symmetry": symmetry, "finder": F.__name__}
-                s1 = searcher(p1, alpha, inferral, symmetry)
-                s2 = searcher(p2, alpha, inferral, symmetry)
+                inp = {"patterns1": p1, "patterns2": p2, "alphabet": alpha, "inferral": inferral, "symmetry": symmetry, "finder": F.__name__,
+                       "prefix1": pre1, "prefix2": pre2, "rich": rich}
+                s1 = searcher(p1, alpha, inferral, symmetry, pre1, rich)
+                s2 = searcher(p2, alpha, inferral, symmetry, pre2, rich)
                 out["pairs"] += 1
                 try:
                     r = F(s1, s2).find()
@@ -93,7 +103,11 @@ def worker(args):
                             out["problems"].append(("returned-specification-not-genuine", inp, f"{which}: {gen[0]}"))
                         out["lines"].append((line, py, inp, which))
                     if not Isomorphism.check(a, b):
-                        out["problems"].append(("returned-pair-not-isomorphic", inp, ""))
+                        # the library's matcher is not complete (C12 claims soundness only): the verdict is left to the
+                        # reference relation isoRef (Lean) on the two skeletons
+                        from props import c12
+
+                        out["isolines"].append((f"{c12.skeleton(a)} {c12.skeleton(b)}", inp))
                     else:
                         bij = Bijection.construct(a, b)
                         for n in range(N):
@@ -130,6 +144,14 @@ def run(tier, seed, factor=1):
             res.fail("returned-specification-not-closed-or-not-productive", inp, which)
         if status != "ok" or model != py:
             res.diff("parallel finder's specification: get_terms vs Lean evalSpec", inp, model[:200], py[:200])
+    isolines = [l for o in outs for l in o["isolines"]]
+    if isolines:
+        verdicts = common.run_driver("IsoRef", "\n".join(l[0] for l in isolines) + "\n")
+        for (text, inp), v in zip(isolines, verdicts):
+            if v == "True":
+                res.dist["pair isomorphic by the reference relation, Isomorphism.check does not find it (matcher incompleteness, C12)"] += 1
+            else:
+                res.fail("returned-pair-not-isomorphic", inp, "Isomorphism.check and the reference relation isoRef both reject the pair")
     for o in outs:
         res.case(("seed", o["seed"], o["pairs"]), nontrivial=o["pairs"] >= 1)
         res.dist["pairs of searchers x finder"] += o["pairs"]
@@ -156,8 +178,8 @@ def replay(case):
         return None
     specrun.quiet()
     F = ParallelSpecFinder if inp["finder"] == "ParallelSpecFinder" else EqPathParallelSpecFinder
-    s1 = searcher(inp["patterns1"], inp["alphabet"], inp["inferral"], inp["symmetry"])
-    s2 = searcher(inp["patterns2"], inp["alphabet"], inp["inferral"], inp["symmetry"])
+    s1 = searcher(inp["patterns1"], inp["alphabet"], inp["inferral"], inp["symmetry"], inp.get("prefix1", ""), inp.get("rich"))
+    s2 = searcher(inp["patterns2"], inp["alphabet"], inp["inferral"], inp["symmetry"], inp.get("prefix2", ""), inp.get("rich"))
     try:
         F(s1, s2).find()
     except Exception as exc:  # noqa: BLE001
